@@ -1,9 +1,539 @@
-import DFV.Model.C20
-import DFV.Lemmas.RatFloor
+import DFV.Lemmas.C20Plot
+/-!
+# C20 — matplotlib plots draw the field's own numbers at their physical coordinates
+
+Level: proof, partial.  The theorems are about the ARGUMENT ASSEMBLY model `DFV.C20`
+(`Model/C20.lean`: what `field.mpl.scalar / vector / contour / lightness / field.mpl()` hand to
+matplotlib) and hold for every 2-d mesh, every cell count, every field, mask, filter,
+mapping and multiplier.  Rendering is matplotlib's; its placement contract is TRUSTED and
+stated here as `PixelCovers` (imshow) and in the wording of `vector_at_centres` (quiver):
+
+* `imshow(img, origin="lower", extent=(x0, x1, y0, y1))` with an `R×C` image: pixel
+  `[r][c]` covers `x ∈ [x0 + c·(x1-x0)/C, x0 + (c+1)·(x1-x0)/C)` and
+  `y ∈ [y0 + r·(y1-y0)/R, y0 + (r+1)·(y1-y0)/R)`, the last column / row closed at `x1` / `y1`;
+* `quiver(X, Y, U, V, C)` draws arrow `(U[r][c], V[r][c])` with colour `C[r][c]` at `(X[c], Y[r])`;
+* NaN pixels (`none`) and arrows with a NaN component are not drawn.
+
+Property theorems only; helper lemmas live in `DFV/Lemmas/C20*.lean`.
+-/
 namespace DFV.C20
 open DFV
 
-/-- placeholder while the harness is being brought up -/
-theorem stub_tmp : (1 : Nat) = 1 := rfl
+/-- matplotlib's imshow placement contract (trusted): pixel `[r][c]` of an `R×C` image with
+`origin="lower"` and `extent = [x0, x1, y0, y1]` covers the point `(x, y)` -/
+def PixelCovers (R C : Nat) (ext : List Rat) (r c : Nat) (x y : Rat) : Prop :=
+  AxisCovers C (ext.getD 0 0) (ext.getD 1 0) c x ∧ AxisCovers R (ext.getD 2 0) (ext.getD 3 0) r y
+
+/-! ## examples used for non-vacuity -/
+
+def exRegion : Region :=
+  { pmin := [0, 0], pmax := [4, 6], dims := ["x", "y"], units := ["m", "m"], tol := 1/1000000000000 }
+def exMesh : Mesh := { region := exRegion, n := [2, 3], bc := "", subs := [] }
+/-- scalar field with values 1..6 (C order), cell (0, 2) invalid -/
+def exS : Fld :=
+  { mesh := exMesh, nvdim := 1, data := NDA.ofList [2, 3] [[1], [2], [3], [4], [5], [6]] [],
+    valid := NDA.ofList [2, 3] [true, true, false, true, true, true] false,
+    vdims := none, vmap := [], unit := none }
+/-- 3-component field, labels a b c, `a ↦ y`, `b ↦ x`, `c ↦ z` -/
+def exV : Fld :=
+  { mesh := exMesh, nvdim := 3,
+    data := NDA.ofList [2, 3] [[0, 1, 2], [3, 4, 5], [6, 7, 8], [9, 10, 11], [12, 13, 14], [15, 16, 17]] [],
+    valid := NDA.ofList [2, 3] [true, true, false, true, true, true] false,
+    vdims := some ["a", "b", "c"], vmap := [("a", "y"), ("b", "x"), ("c", "z")], unit := none }
+/-- filter that is non-zero everywhere -/
+def exOnes : Fld := { exS with data := NDA.ofList [2, 3] [[1], [1], [1], [1], [1], [1]] [],
+                               valid := NDA.ofList [2, 3] [true, true, true, true, true, true] false }
+
+theorem exMesh_inv : exMesh.Inv := mesh_inv_of_invB exMesh (by decide +kernel)
+
+/-! ## scalar plot: the value drawn at a physical point is the field value of its cell -/
+
+/-- Generic positional statement behind scalar, contour and lightness images.  For a 2-d
+mesh, a positive multiplier `m`, and any point `(x, y)` (in units of `m`) of the closed
+region, let `(i, j)` be the cell `point2index` assigns to `(x·m, y·m)` (C01's `indexAx`).
+Then, for the transposed masked image handed to matplotlib with the extent `region / m`:
+the pixel `[j][i]` covers `(x, y)` under the imshow contract, it is the only pixel that
+does, and it holds the value of cell `(i, j)` when that cell is kept by the filter and
+NaN otherwise. -/
+theorem image_at_position {α} (msh : Mesh) (hinv : msh.Inv) (h2 : msh.region.ndim = 2) (m : Rat)
+    (hm : 0 < m) (keep : NDA Bool) (val : List Nat → α) (x y : Rat)
+    (hx : msh.region.lo 0 ≤ x * m ∧ x * m ≤ msh.region.hi 0)
+    (hy : msh.region.lo 1 ≤ y * m ∧ y * m ≤ msh.region.hi 1) :
+    (imgOf msh.n keep val).shape = [msh.nAt 1, msh.nAt 0] ∧
+    msh.indexAx 0 (x * m) < msh.nAt 0 ∧ msh.indexAx 1 (y * m) < msh.nAt 1 ∧
+    PixelCovers (msh.nAt 1) (msh.nAt 0)
+      [msh.region.lo 0 / m, msh.region.hi 0 / m, msh.region.lo 1 / m, msh.region.hi 1 / m]
+      (msh.indexAx 1 (y * m)) (msh.indexAx 0 (x * m)) x y ∧
+    (∀ r c, r < msh.nAt 1 → c < msh.nAt 0 →
+      PixelCovers (msh.nAt 1) (msh.nAt 0)
+        [msh.region.lo 0 / m, msh.region.hi 0 / m, msh.region.lo 1 / m, msh.region.hi 1 / m] r c x y →
+      r = msh.indexAx 1 (y * m) ∧ c = msh.indexAx 0 (x * m)) ∧
+    (imgOf msh.n keep val).get [msh.indexAx 1 (y * m), msh.indexAx 0 (x * m)] =
+      if keep.get [msh.indexAx 0 (x * m), msh.indexAx 1 (y * m)]
+      then some (val [msh.indexAx 0 (x * m), msh.indexAx 1 (y * m)]) else none := by
+  obtain ⟨rinv, hnlen, hnpos⟩ := hinv
+  obtain ⟨_, _, _, _, _, hlt⟩ := rinv
+  have hnd : msh.ndim = 2 := h2
+  have hlen : msh.region.pmin.length = 2 := h2
+  have hn : msh.n.length = 2 := by rw [hnlen, h2]
+  have c0 := axisCovers_index msh 0 m x (hnpos 0 (by omega)) (hlt 0 (by omega)) hm hx.1 hx.2
+  have c1 := axisCovers_index msh 1 m y (hnpos 1 (by omega)) (hlt 1 (by omega)) hm hy.1 hy.2
+  have d0 : msh.region.lo 0 / m < msh.region.hi 0 / m :=
+    div_lt_div_of_pos_right (hlt 0 (by omega)) hm
+  have d1 : msh.region.lo 1 / m < msh.region.hi 1 / m :=
+    div_lt_div_of_pos_right (hlt 1 (by omega)) hm
+  refine ⟨?_, c0.1, c1.1, ⟨c0.2, c1.2⟩, ?_, ?_⟩
+  · rw [imgOf_shape]; rfl
+  · intro r c hr hc hcov
+    exact ⟨axisCovers_unique _ _ _ d1 r _ y hr c1.1 hcov.2 c1.2,
+           axisCovers_unique _ _ _ d0 c _ x hc c0.1 hcov.1 c0.2⟩
+  · rw [imgOf_get _ hn]
+
+/-- **Central theorem (scalar plot).**  Whenever `field.mpl.scalar` succeeds on a well-formed
+2-d mesh it makes exactly one `imshow` call followed by the axis labels; the image has
+`origin="lower"`, shape `(n₁, n₀)`, extent `region / multiplier` (`multiplier > 0`), and for
+EVERY physical point `(x, y)` of the region (in units of the multiplier) the unique pixel
+covering it under the imshow contract shows the value of the cell that contains
+`(x·multiplier, y·multiplier)` — if the filter in force keeps that cell — and NaN (nothing
+drawn) otherwise. -/
+theorem scalar_at_position (f : Fld) (o : Opts) (calls : List PlotCall) (hinv : f.mesh.Inv)
+    (h : mplScalar f o = .ok calls) :
+    ∃ m keep img lab, 0 < m ∧ setupMultiplier f o.mult = .ok m ∧
+      filterKeep f (filterOf f o) = .ok keep ∧
+      calls = [.imshow img "lower"
+        [f.mesh.region.lo 0 / m, f.mesh.region.hi 0 / m, f.mesh.region.lo 1 / m, f.mesh.region.hi 1 / m],
+        lab] ∧
+      img.shape = [f.mesh.nAt 1, f.mesh.nAt 0] ∧
+      ∀ x y, f.mesh.region.lo 0 ≤ x * m ∧ x * m ≤ f.mesh.region.hi 0 →
+        f.mesh.region.lo 1 ≤ y * m ∧ y * m ≤ f.mesh.region.hi 1 →
+        f.mesh.indexAx 0 (x * m) < f.mesh.nAt 0 ∧ f.mesh.indexAx 1 (y * m) < f.mesh.nAt 1 ∧
+        PixelCovers (f.mesh.nAt 1) (f.mesh.nAt 0)
+          [f.mesh.region.lo 0 / m, f.mesh.region.hi 0 / m, f.mesh.region.lo 1 / m, f.mesh.region.hi 1 / m]
+          (f.mesh.indexAx 1 (y * m)) (f.mesh.indexAx 0 (x * m)) x y ∧
+        (∀ r c, r < f.mesh.nAt 1 → c < f.mesh.nAt 0 →
+          PixelCovers (f.mesh.nAt 1) (f.mesh.nAt 0)
+            [f.mesh.region.lo 0 / m, f.mesh.region.hi 0 / m, f.mesh.region.lo 1 / m, f.mesh.region.hi 1 / m]
+            r c x y →
+          r = f.mesh.indexAx 1 (y * m) ∧ c = f.mesh.indexAx 0 (x * m)) ∧
+        img.get [f.mesh.indexAx 1 (y * m), f.mesh.indexAx 0 (x * m)] =
+          if keep.get [f.mesh.indexAx 0 (x * m), f.mesh.indexAx 1 (y * m)]
+          then some ((f.data.get [f.mesh.indexAx 0 (x * m), f.mesh.indexAx 1 (y * m)]).getD 0 0)
+          else none := by
+  obtain ⟨h2, _, m, hm, hcore⟩ := mplScalar_ok_inv f o calls h
+  obtain ⟨ext, keep, lab, he, hk, hl, hc⟩ := scalarCore_ok_inv f o m calls hcore
+  have hpos := axisLabels_pos _ _ _ hl
+  rw [extent_eq f.mesh.region hinv.1 h2 m hpos] at he
+  injection he with he
+  subst he
+  refine ⟨m, keep, _, lab, hpos, hm, hk, hc, ?_, ?_⟩
+  · rw [imgOf_shape]; rfl
+  · intro x y hx hy
+    obtain ⟨_, a, b, c, d, e⟩ := image_at_position f.mesh hinv h2 m hpos keep
+      (fun i => (f.data.get i).getD 0 0) x y hx hy
+    exact ⟨a, b, c, d, e⟩
+
+/-- In-domain inputs are plotted: on a well-formed 2-d mesh, a field with one component,
+a multiplier of the SI table and a usable filter always yield the `imshow` call. -/
+theorem scalar_total (f : Fld) (o : Opts) (hinv : f.mesh.Inv) (h2 : f.mesh.region.ndim = 2)
+    (hnv : f.nvdim ≤ 1) (m : Rat) (hm : setupMultiplier f o.mult = .ok m) (pre : String)
+    (hp : rsiPrefix? m = some pre) (keep : NDA Bool) (hk : filterKeep f (filterOf f o) = .ok keep) :
+    ∃ calls, mplScalar f o = .ok calls := by
+  have hpos := rsiPrefix_pos m pre hp
+  unfold mplScalar
+  rw [if_neg (by simpa using h2), if_neg (by omega)]
+  simp only [hm, scalarCore, extent_eq f.mesh.region hinv.1 h2 m hpos, hk, axisLabels, hp]
+  exact ⟨_, rfl⟩
+
+/-- Non-vacuity of `scalar_at_position` / `scalar_total`: the 2×3 example field on
+`[0,4]×[0,6]` is plotted with the default multiplier 1 and the default filter. -/
+example : ∃ calls, mplScalar exS {} = .ok calls := by
+  obtain ⟨keep, hk, _⟩ := filterKeep_valid exS rfl
+  exact scalar_total exS {} exMesh_inv rfl (by decide) 1 (by decide +kernel) "" (by decide +kernel) keep hk
+
+/-! ## hidden cells -/
+
+/-- Default filter: with no `filter_field`, pixel `[j][i]` shows the value of cell `(i, j)`
+exactly when that cell is valid; invalid cells are NaN (not drawn). -/
+theorem scalar_default_hides_invalid (f : Fld) (o : Opts) (calls : List PlotCall) (hinv : f.mesh.Inv)
+    (hnone : o.filter = none) (h : mplScalar f o = .ok calls) :
+    ∃ img ext lab, calls = [.imshow img "lower" ext, lab] ∧
+      ∀ i j, img.get [j, i] =
+        if f.valid.get [i, j] then some ((f.data.get [i, j]).getD 0 0) else none := by
+  obtain ⟨h2, _, m, _, hcore⟩ := mplScalar_ok_inv f o calls h
+  obtain ⟨ext, keep, lab, _, hk, _, hc⟩ := scalarCore_ok_inv f o m calls hcore
+  have hn : f.mesh.n.length = 2 := by rw [hinv.2.1, h2]
+  obtain ⟨keep', hk', hget⟩ := filterKeep_valid f h2
+  have hfo : filterOf f o = validAsField f := by simp [filterOf, hnone]
+  rw [hfo, hk'] at hk
+  injection hk with hk
+  subst hk
+  refine ⟨_, ext, lab, hc, fun i j => ?_⟩
+  rw [imgOf_get _ hn, hget]
+
+/-- Explicit filter on the same cell counts: pixel `[j][i]` is NaN exactly when the filter
+field is zero in cell `(i, j)`, and shows the cell's value otherwise.  The validity mask
+does not enter: in the code the explicit `filter_field` REPLACES the default validity
+filter (see `scalar_explicit_filter_draws_invalid`). -/
+theorem scalar_filter_hides_zero (f flt : Fld) (o : Opts) (calls : List PlotCall) (hinv : f.mesh.Inv)
+    (hflt : o.filter = some flt) (hn : flt.mesh.n = f.mesh.n) (h : mplScalar f o = .ok calls) :
+    ∃ img ext lab, calls = [.imshow img "lower" ext, lab] ∧
+      ∀ i j, img.get [j, i] =
+        if (flt.data.get [i, j]).getD 0 0 = 0 then none else some ((f.data.get [i, j]).getD 0 0) := by
+  obtain ⟨h2, _, m, _, hcore⟩ := mplScalar_ok_inv f o calls h
+  obtain ⟨ext, keep, lab, _, hk, _, hc⟩ := scalarCore_ok_inv f o m calls hcore
+  have hlen : f.mesh.n.length = 2 := by rw [hinv.2.1, h2]
+  have hfo : filterOf f o = flt := by simp [filterOf, hflt]
+  rw [hfo] at hk
+  obtain ⟨h1, h2', a, ha, _, hget⟩ := filterKeep_ok_inv f flt keep hk
+  rw [auxOnMesh_same f flt hn] at ha
+  injection ha with ha
+  subst ha
+  refine ⟨_, ext, lab, hc, fun i j => ?_⟩
+  rw [imgOf_get _ hlen, hget]
+  simp
+
+/-- The full-strength reading of the property ("invalid cells are never drawn") is FALSE of
+the code as modelled: with an explicit filter that is non-zero everywhere, the invalid cell
+`(0, 2)` of the example field is drawn with its value 3 (candidate finding D21). -/
+theorem scalar_explicit_filter_draws_invalid :
+    ∃ calls img ext lab, mplScalar exS { filter := some exOnes } = .ok calls ∧
+      calls = [.imshow img "lower" ext, lab] ∧
+      exS.valid.get [0, 2] = false ∧ img.get [2, 0] = some 3 := by
+  obtain ⟨keep, hk, _⟩ := filterKeep_same exS exOnes rfl rfl rfl
+  obtain ⟨calls, hc⟩ := scalar_total exS { filter := some exOnes } exMesh_inv rfl (by decide) 1
+    (by decide +kernel) "" (by decide +kernel) keep hk
+  obtain ⟨img, ext, lab, hcalls, hpix⟩ :=
+    scalar_filter_hides_zero exS exOnes { filter := some exOnes } calls exMesh_inv rfl rfl hc
+  refine ⟨calls, img, ext, lab, hc, hcalls, by decide +kernel, ?_⟩
+  rw [hpix 0 2]
+  decide +kernel
+
+/-! ## vector plot -/
+
+/-- **Arrows sit at cell centres / multiplier.**  Whenever `field.mpl.vector` succeeds it makes
+one `quiver` call followed by the labels; `X` has one entry per cell along axis 0, `Y` one per
+cell along axis 1, entry `c` being the centre of cell `c`, `pmin + (c + ½)·cell`, divided by the
+(positive) multiplier; `U`, `V` have shape `(n₁, n₀)`, so that under the quiver contract the
+arrow `[r][c]` is drawn at the centre of cell `(c, r)`. -/
+theorem vector_at_centres (f : Fld) (o : Opts) (calls : List PlotCall)
+    (h : mplVector f o = .ok calls) :
+    ∃ m X Y U V C lab, 0 < m ∧ setupMultiplier f o.mult = .ok m ∧
+      calls = [.quiver X Y U V C, lab] ∧
+      X.length = f.mesh.nAt 0 ∧ Y.length = f.mesh.nAt 1 ∧
+      (∀ c, c < f.mesh.nAt 0 →
+        X.getD c 0 = (f.mesh.region.lo 0 + ((c : Rat) + 1/2) * f.mesh.cellAt 0) / m) ∧
+      (∀ r, r < f.mesh.nAt 1 →
+        Y.getD r 0 = (f.mesh.region.lo 1 + ((r : Rat) + 1/2) * f.mesh.cellAt 1) / m) ∧
+      U.shape = [f.mesh.nAt 1, f.mesh.nAt 0] ∧ V.shape = [f.mesh.nAt 1, f.mesh.nAt 0] := by
+  obtain ⟨h2, _, m, hm, hcore⟩ := mplVector_ok_inv f o calls h
+  obtain ⟨keep, vd, ax, ay, c, lab, _, _, _, _, _, _, hl, hc⟩ := vectorCore_ok_inv f o m calls hcore
+  have hpos := axisLabels_pos _ _ _ hl
+  have hnd : f.mesh.ndim = 2 := h2
+  refine ⟨m, _, _, _, _, c, lab, hpos, hm, hc, pointsAx_length _ _ _ (by omega),
+    pointsAx_length _ _ _ (by omega), ?_, ?_, arrowArr_shape _ _ _, arrowArr_shape _ _ _⟩
+  · intro c hc'
+    rw [pointsAx_getD _ _ _ _ (by omega) hc']
+    simp [Mesh.centreAx]
+  · intro r hr
+    rw [pointsAx_getD _ _ _ _ (by omega) hr]
+    simp [Mesh.centreAx]
+
+/-- **Arrow components are chosen through the component-to-axis mapping.**  With no explicit
+`vdims=`, the horizontal arrow component `U[r][c]` is the component of cell `(c, r)` whose label
+the mapping sends to the first spatial dimension (`(label, dims[0]) ∈ vdim_mapping`, and that
+label is the `k`-th entry of `field.vdims`), `V` likewise for the second dimension; a direction
+nothing is mapped to gets zeros.  Invalid cells carry NaN in every mapped component. -/
+theorem vector_components_through_mapping (f : Fld) (o : Opts) (calls : List PlotCall)
+    (hinv : f.mesh.Inv) (hvd : o.vdimsArg = none) (h : mplVector f o = .ok calls) :
+    ∃ X Y U V C lab, calls = [.quiver X Y U V C, lab] ∧
+      ((∃ l k vs, (l, f.mesh.region.dims.getD 0 "") ∈ f.vmap ∧ f.vdims = some vs ∧ vs.getD k "" = l ∧
+          ∀ r c, U.get [r, c] =
+            if f.valid.get [c, r] then some ((f.data.get [c, r]).getD k 0) else none) ∨
+        (∀ r c, U.get [r, c] = some 0)) ∧
+      ((∃ l k vs, (l, f.mesh.region.dims.getD 1 "") ∈ f.vmap ∧ f.vdims = some vs ∧ vs.getD k "" = l ∧
+          ∀ r c, V.get [r, c] =
+            if f.valid.get [c, r] then some ((f.data.get [c, r]).getD k 0) else none) ∨
+        (∀ r c, V.get [r, c] = some 0)) := by
+  obtain ⟨h2, _, m, _, hcore⟩ := mplVector_ok_inv f o calls h
+  obtain ⟨keep, vd, ax, ay, c, lab, hk, hvds, hax, hay, _, _, _, hc⟩ := vectorCore_ok_inv f o m calls hcore
+  have hn : f.mesh.n.length = 2 := by rw [hinv.2.1, h2]
+  obtain ⟨keep', hk', hget⟩ := filterKeep_valid f h2
+  rw [hk'] at hk
+  injection hk with hk
+  subst hk
+  have hvd' : vd = inplaneVdims f := by
+    unfold vectorVdims at hvds
+    rw [hvd] at hvds
+    injection hvds with hvds
+    exact hvds.symm
+  subst hvd'
+  have side : ∀ (a : Nat) (ai : Option Nat),
+      arrowIdx f (rDimLast f (f.mesh.region.dims.getD a "")) = .ok ai →
+      ((∃ l k vs, (l, f.mesh.region.dims.getD a "") ∈ f.vmap ∧ f.vdims = some vs ∧ vs.getD k "" = l ∧
+          ∀ r c, (arrowArr f keep' ai).get [r, c] =
+            if f.valid.get [c, r] then some ((f.data.get [c, r]).getD k 0) else none) ∨
+        (∀ r c, (arrowArr f keep' ai).get [r, c] = some 0)) := by
+    intro a ai hai
+    cases ai with
+    | none => right; intro r c; exact arrowArr_none_get f hn keep' r c
+    | some k =>
+      left
+      obtain ⟨s, vs, hs, _, hvs, hks⟩ := arrowIdx_some_inv f _ k hai
+      refine ⟨s, k, vs, rDimLast_mem f _ s hs, hvs, hks, fun r c => ?_⟩
+      rw [arrowArr_some_get f hn, hget]
+  refine ⟨_, _, _, _, c, lab, hc, side 0 ax (by simpa [inplaneVdims] using hax),
+    side 1 ay (by simpa [inplaneVdims] using hay)⟩
+
+/-- **Explicit labels.**  With `vdims=[lx, ly]` the arrow components are the components with
+exactly these labels (zeros for `None`), NaN in invalid cells. -/
+theorem vector_components_explicit (f : Fld) (o : Opts) (calls : List PlotCall) (hinv : f.mesh.Inv)
+    (lx ly : Option String) (hvd : o.vdimsArg = some [lx, ly]) (h : mplVector f o = .ok calls) :
+    ∃ X Y U V C lab, calls = [.quiver X Y U V C, lab] ∧
+      ((∃ l k vs, lx = some l ∧ f.vdims = some vs ∧ vs.getD k "" = l ∧
+          ∀ r c, U.get [r, c] =
+            if f.valid.get [c, r] then some ((f.data.get [c, r]).getD k 0) else none) ∨
+        ((lx = none ∨ lx = some "") ∧ ∀ r c, U.get [r, c] = some 0)) ∧
+      ((∃ l k vs, ly = some l ∧ f.vdims = some vs ∧ vs.getD k "" = l ∧
+          ∀ r c, V.get [r, c] =
+            if f.valid.get [c, r] then some ((f.data.get [c, r]).getD k 0) else none) ∨
+        ((ly = none ∨ ly = some "") ∧ ∀ r c, V.get [r, c] = some 0)) := by
+  obtain ⟨h2, _, m, _, hcore⟩ := mplVector_ok_inv f o calls h
+  obtain ⟨keep, vd, ax, ay, c, lab, hk, hvds, hax, hay, _, _, _, hc⟩ := vectorCore_ok_inv f o m calls hcore
+  have hn : f.mesh.n.length = 2 := by rw [hinv.2.1, h2]
+  obtain ⟨keep', hk', hget⟩ := filterKeep_valid f h2
+  rw [hk'] at hk
+  injection hk with hk
+  subst hk
+  have hvd' : vd = [lx, ly] := by
+    unfold vectorVdims at hvds
+    rw [hvd] at hvds
+    simp at hvds
+    exact hvds.symm
+  subst hvd'
+  have side : ∀ (l : Option String) (ai : Option Nat), arrowIdx f l = .ok ai →
+      ((∃ s k vs, l = some s ∧ f.vdims = some vs ∧ vs.getD k "" = s ∧
+          ∀ r c, (arrowArr f keep' ai).get [r, c] =
+            if f.valid.get [c, r] then some ((f.data.get [c, r]).getD k 0) else none) ∨
+        ((l = none ∨ l = some "") ∧ ∀ r c, (arrowArr f keep' ai).get [r, c] = some 0)) := by
+    intro l ai hai
+    cases ai with
+    | none => right; exact ⟨arrowIdx_none_inv f l hai, fun r c => arrowArr_none_get f hn keep' r c⟩
+    | some k =>
+      left
+      obtain ⟨s, vs, hs, _, hvs, hks⟩ := arrowIdx_some_inv f _ k hai
+      refine ⟨s, k, vs, hs, hvs, hks, fun r c => ?_⟩
+      rw [arrowArr_some_get f hn, hget]
+  exact ⟨_, _, _, _, c, lab, hc, side lx ax (by simpa using hax), side ly ay (by simpa using hay)⟩
+
+/-- **Colour = the third component.**  For a 3-component field with `use_color=True` and no
+`color_field`, when exactly one label `l` is left over after removing the two arrow labels,
+`C[r][c]` is the component labelled `l` of cell `(c, r)`. -/
+theorem vector_colour_third (f : Fld) (o : Opts) (vd : List (Option String)) (l : String)
+    (hinv : f.mesh.Inv) (h2 : f.mesh.region.ndim = 2) (huse : o.useColor = true)
+    (haux : o.aux = none) (h3 : f.nvdim = 3) (hleft : leftover f vd = [l]) (C : Option (NDA Rat))
+    (h : colourOf f o vd = .ok C) :
+    ∃ arr k vs, C = some arr ∧ f.vdims = some vs ∧ vs.getD k "" = l ∧ some l ∉ vd ∧
+      arr.shape = [f.mesh.nAt 1, f.mesh.nAt 0] ∧
+      ∀ r c, arr.get [r, c] = (f.data.get [c, r]).getD k 0 := by
+  have hn : f.mesh.n.length = 2 := by rw [hinv.2.1, h2]
+  have hmem : l ∈ leftover f vd := by rw [hleft]; simp
+  have hnot : some l ∉ vd := by
+    unfold leftover at hmem
+    have := (List.mem_filter.mp hmem).2
+    simpa using this
+  cases hk : f.vdimIndex l with
+  | none =>
+    rw [colourOf_third_err f o vd huse haux h3 _ (thirdComp_single_none f vd l o.pick hleft hk)] at h
+    cases h
+  | some k =>
+    rw [colourOf_third f o vd huse haux h3 k (thirdComp_single f vd l o.pick k hleft hk)] at h
+    injection h with h
+    obtain ⟨vs, hvs, hks⟩ := vdimIndex_spec f l k hk
+    refine ⟨_, k, vs, h.symm, hvs, hks, hnot, by rw [colourArr_shape]; rfl, fun r c => ?_⟩
+    rw [colourArr_get _ hn]
+    simp
+
+/-- **Colour = the colour field.**  With a scalar `color_field` on the same cell counts,
+`C[r][c]` is the colour field's value in cell `(c, r)`. -/
+theorem vector_colour_field (f g : Fld) (o : Opts) (vd : List (Option String)) (hinv : f.mesh.Inv)
+    (h2 : f.mesh.region.ndim = 2) (huse : o.useColor = true) (haux : o.aux = some g)
+    (hn : g.mesh.n = f.mesh.n) (C : Option (NDA Rat)) (h : colourOf f o vd = .ok C) :
+    g.nvdim = 1 ∧ g.mesh.region.ndim = 2 ∧
+    ∃ arr, C = some arr ∧ arr.shape = [f.mesh.nAt 1, f.mesh.nAt 0] ∧
+      ∀ r c, arr.get [r, c] = (g.data.get [c, r]).getD 0 0 := by
+  have hlen : f.mesh.n.length = 2 := by rw [hinv.2.1, h2]
+  rw [colourOf_aux f g o vd huse haux] at h
+  split at h
+  · cases h
+  · rename_i h1
+    split at h
+    · cases h
+    · rename_i h2'
+      rw [auxOnMesh_same f g hn] at h
+      injection h with h
+      refine ⟨not_not.mp h1, not_not.mp h2', _, h.symm, by rw [colourArr_shape]; rfl, fun r c => ?_⟩
+      rw [colourArr_get _ hlen]
+
+/-! ## contour plot -/
+
+/-- **Contour grid.**  Whenever `field.mpl.contour` succeeds it makes one `contour(X, Y, Z)` call
+followed by the labels: `X`, `Y` are the cell centres divided by the (positive) multiplier and
+`Z[r][c]` is the value of cell `(c, r)` if the filter in force keeps it and NaN otherwise. -/
+theorem contour_grid (f : Fld) (o : Opts) (calls : List PlotCall) (hinv : f.mesh.Inv)
+    (h : mplContour f o = .ok calls) :
+    ∃ m keep X Y Z lab, 0 < m ∧ setupMultiplier f o.mult = .ok m ∧
+      filterKeep f (filterOf f o) = .ok keep ∧ calls = [.contour X Y Z, lab] ∧
+      X.length = f.mesh.nAt 0 ∧ Y.length = f.mesh.nAt 1 ∧
+      (∀ c, c < f.mesh.nAt 0 →
+        X.getD c 0 = (f.mesh.region.lo 0 + ((c : Rat) + 1/2) * f.mesh.cellAt 0) / m) ∧
+      (∀ r, r < f.mesh.nAt 1 →
+        Y.getD r 0 = (f.mesh.region.lo 1 + ((r : Rat) + 1/2) * f.mesh.cellAt 1) / m) ∧
+      Z.shape = [f.mesh.nAt 1, f.mesh.nAt 0] ∧
+      ∀ r c, Z.get [r, c] = if keep.get [c, r] then some ((f.data.get [c, r]).getD 0 0) else none := by
+  obtain ⟨h2, _, m, keep, lab, hm, hk, hl, hc⟩ := mplContour_ok_inv f o calls h
+  have hpos := axisLabels_pos _ _ _ hl
+  have hnd : f.mesh.ndim = 2 := h2
+  have hn : f.mesh.n.length = 2 := by rw [hinv.2.1, h2]
+  refine ⟨m, keep, _, _, _, lab, hpos, hm, hk, hc, pointsAx_length _ _ _ (by omega),
+    pointsAx_length _ _ _ (by omega), ?_, ?_, by rw [imgOf_shape]; rfl, fun r c => imgOf_get _ hn _ _ r c⟩
+  · intro c hc'
+    rw [pointsAx_getD _ _ _ _ (by omega) hc']
+    simp [Mesh.centreAx]
+  · intro r hr
+    rw [pointsAx_getD _ _ _ _ (by omega) hr]
+    simp [Mesh.centreAx]
+
+/-! ## lightness plot -/
+
+/-- **Lightness pixels.**  The final stage every lightness plot goes through (`lightCore`): one
+`imshow` call with `origin="lower"` and extent `region / multiplier`; pixel `[r][c]` is
+transparent when the filter drops cell `(c, r)` and otherwise carries the hue token of that
+cell and its lightness value normalised over the whole array; and the pixel that covers a
+physical point under the imshow contract is the pixel of the cell containing the point. -/
+theorem lightness_pixels (f : Fld) (o : Opts) (hue : List Nat → Hue) (dflt : NDA Rat) (flt : Fld)
+    (calls : List PlotCall) (hinv : f.mesh.Inv) (h2 : f.mesh.region.ndim = 2)
+    (h : lightCore f o hue dflt flt = .ok calls) :
+    ∃ m l keep img lab, 0 < m ∧ setupMultiplier f o.mult = .ok m ∧ lightSrc f o.aux dflt = .ok l ∧
+      filterKeep f flt = .ok keep ∧
+      calls = [.imshowHL img "lower"
+        [f.mesh.region.lo 0 / m, f.mesh.region.hi 0 / m, f.mesh.region.lo 1 / m, f.mesh.region.hi 1 / m],
+        lab] ∧
+      img.shape = [f.mesh.nAt 1, f.mesh.nAt 0] ∧
+      (∀ r c, img.get [r, c] =
+        if keep.get [c, r] then
+          some (hue [c, r], normalise (ndaMin ⟨f.mesh.n, l.get⟩) (ndaMax ⟨f.mesh.n, l.get⟩)
+                              (o.clim.getD (0, 1)) (l.get [c, r]))
+        else none) ∧
+      ∀ x y, f.mesh.region.lo 0 ≤ x * m ∧ x * m ≤ f.mesh.region.hi 0 →
+        f.mesh.region.lo 1 ≤ y * m ∧ y * m ≤ f.mesh.region.hi 1 →
+        PixelCovers (f.mesh.nAt 1) (f.mesh.nAt 0)
+          [f.mesh.region.lo 0 / m, f.mesh.region.hi 0 / m, f.mesh.region.lo 1 / m, f.mesh.region.hi 1 / m]
+          (f.mesh.indexAx 1 (y * m)) (f.mesh.indexAx 0 (x * m)) x y ∧
+        (∀ r c, r < f.mesh.nAt 1 → c < f.mesh.nAt 0 →
+          PixelCovers (f.mesh.nAt 1) (f.mesh.nAt 0)
+            [f.mesh.region.lo 0 / m, f.mesh.region.hi 0 / m, f.mesh.region.lo 1 / m, f.mesh.region.hi 1 / m]
+            r c x y →
+          r = f.mesh.indexAx 1 (y * m) ∧ c = f.mesh.indexAx 0 (x * m)) := by
+  obtain ⟨m, ext, l, keep, lab, hm, he, hl, hk, _, hlab, hc⟩ := lightCore_ok_inv f o hue dflt flt calls h
+  have hpos := axisLabels_pos _ _ _ hlab
+  have hn : f.mesh.n.length = 2 := by rw [hinv.2.1, h2]
+  rw [extent_eq f.mesh.region hinv.1 h2 m hpos] at he
+  injection he with he
+  subst he
+  refine ⟨m, l, keep, _, lab, hpos, hm, hl, hk, hc, by rw [imgOf_shape]; rfl,
+    fun r c => imgOf_get _ hn _ _ r c, ?_⟩
+  intro x y hx hy
+  obtain ⟨_, _, _, c, d, _⟩ := image_at_position f.mesh hinv h2 m hpos keep (fun _ => ()) x y hx hy
+  exact ⟨c, d⟩
+
+/-- **Hue = in-plane angle through the mapping.**  For 2- and 3-component fields a successful
+lightness plot is the final stage run with the hue token `angle(comp_y, comp_x)` of every cell,
+where `comp_x` / `comp_y` are the components whose labels the mapping sends to the first /
+second spatial dimension, and with the filter in force (`filter_field` or validity). -/
+theorem lightness_hue_inplane (sqrtF : Rat → Rat) (f : Fld) (o : Opts) (calls : List PlotCall)
+    (hnv : f.nvdim = 2 ∨ f.nvdim = 3) (h : mplLightness sqrtF f o = .ok calls) :
+    ∃ cx cy lx ly vs o' dflt, (lx, f.mesh.region.dims.getD 0 "") ∈ f.vmap ∧
+      (ly, f.mesh.region.dims.getD 1 "") ∈ f.vmap ∧ f.vdims = some vs ∧
+      vs.getD cx "" = lx ∧ vs.getD cy "" = ly ∧ o'.mult = o.mult ∧ o'.clim = o.clim ∧
+      lightCore f o'
+        (fun i => .angle ((f.data.get i).getD cy 0) ((f.data.get i).getD cx 0)) dflt (filterOf f o)
+        = .ok calls := by
+  have fin : ∀ (xy : Nat × Nat) (o' : Opts) (dflt : NDA Rat), angleComps f = .ok xy →
+      lightCore f o' (fun i => .angle ((f.data.get i).getD xy.2 0) ((f.data.get i).getD xy.1 0)) dflt
+        (filterOf f o) = .ok calls →
+      o'.mult = o.mult → o'.clim = o.clim →
+      ∃ cx cy lx ly vs o' dflt, (lx, f.mesh.region.dims.getD 0 "") ∈ f.vmap ∧
+        (ly, f.mesh.region.dims.getD 1 "") ∈ f.vmap ∧ f.vdims = some vs ∧
+        vs.getD cx "" = lx ∧ vs.getD cy "" = ly ∧ o'.mult = o.mult ∧ o'.clim = o.clim ∧
+        lightCore f o'
+          (fun i => .angle ((f.data.get i).getD cy 0) ((f.data.get i).getD cx 0)) dflt (filterOf f o)
+          = .ok calls := by
+    intro xy o' dflt hxy hcore hmult hclim
+    obtain ⟨cx, cy⟩ := xy
+    obtain ⟨lx, ly, hx, hy, hix, hiy⟩ := angleComps_ok_inv f cx cy hxy
+    obtain ⟨vs, hvs, hvx⟩ := vdimIndex_spec f lx cx hix
+    obtain ⟨vs', hvs', hvy⟩ := vdimIndex_spec f ly cy hiy
+    rw [hvs] at hvs'
+    injection hvs' with hvs'
+    subst hvs'
+    exact ⟨cx, cy, lx, ly, vs, o', dflt, rDimLast_mem f _ lx hx, rDimLast_mem f _ ly hy, hvs, hvx, hvy,
+      hmult, hclim, hcore⟩
+  unfold mplLightness at h
+  split at h
+  · cases h
+  · split at h
+    · -- two components
+      split at h
+      · cases h
+      · rename_i xy hxy
+        exact fin xy _ _ hxy h rfl rfl
+    · rename_i hn2
+      split at h
+      · -- three components
+        split at h
+        · split at h
+          · cases h
+          · rename_i xy hxy
+            exact fin xy _ _ hxy h rfl rfl
+        · split at h
+          · cases h
+          · split at h
+            · cases h
+            · split at h
+              · cases h
+              · rename_i xy hxy
+                exact fin xy _ _ hxy h rfl rfl
+      · rename_i hn3
+        rcases hnv with h' | h'
+        · exact absurd h' hn2
+        · exact absurd h' hn3
+
+/-- **Hue of a scalar field** is its own value (in radians), default lightness its absolute
+value, and the filter in force is `filter_field` or the validity mask. -/
+theorem lightness_scalar (sqrtF : Rat → Rat) (f : Fld) (o : Opts) (h2 : f.mesh.region.ndim = 2)
+    (hnv : f.nvdim = 1) :
+    mplLightness sqrtF f o =
+      lightCore f o (fun i => .val ((f.data.get i).getD 0 0))
+        ⟨f.mesh.n, fun i => absR ((f.data.get i).getD 0 0)⟩ (filterOf f o) := by
+  unfold mplLightness
+  simp [h2, hnv]
+
+/-- `normalise_to_range` with the default range `(0, 1)`: the smallest entry maps to 0, the
+largest to 1, everything in between stays in `[0, 1]`, order preserved. -/
+theorem normalise_unit (lo hi v w : Rat) (hlt : lo < hi) (h1 : lo ≤ v) (h2 : v ≤ w) (h3 : w ≤ hi) :
+    normalise lo hi (0, 1) lo = 0 ∧ normalise lo hi (0, 1) hi = 1 ∧
+    0 ≤ normalise lo hi (0, 1) v ∧ normalise lo hi (0, 1) v ≤ normalise lo hi (0, 1) w ∧
+    normalise lo hi (0, 1) w ≤ 1 := by
+  have hd : 0 < hi - lo := by linarith
+  have hne : hi - lo ≠ 0 := ne_of_gt hd
+  unfold normalise
+  simp only [hne, if_false]
+  refine ⟨by simp, by field_simp; ring, ?_, ?_, ?_⟩
+  · have : 0 ≤ (v - lo) / (hi - lo) := div_nonneg (by linarith) hd.le
+    linarith
+  · have : (v - lo) / (hi - lo) ≤ (w - lo) / (hi - lo) := div_le_div_of_nonneg_right (by linarith) hd.le
+    linarith
+  · have : (w - lo) / (hi - lo) ≤ 1 := by rw [div_le_one hd]; linarith
+    linarith
 
 end DFV.C20
